@@ -469,3 +469,214 @@ Proof.
   - rewrite R3. rewrite fold_push_addr. cbn [length app]. f_equal; try lia.
   - discriminate.
 Qed.
+
+(* ====================================================================================== *)
+(* Part C: which datagram may touch which slot                                            *)
+(* ====================================================================================== *)
+
+Definition dns_source_ok (s : dns_sock) (src : list Z) (sp : Z) : Prop :=
+  (sp = dns_DNS_PORT /\ In src (ds_servers s)) \/ sp = dns_MDNS_DNS_PORT.
+
+Lemma dns_accepts_iff : forall s src sp, dns_accepts s src sp = true <-> dns_source_ok s src sp.
+Proof.
+  intros. unfold dns_accepts, dns_source_ok. rewrite orb_true_iff, andb_true_iff, !Z.eqb_eq, existsb_exists.
+  split; (intros [[A B]|C]; [left; split; auto|right; auto]).
+  - destruct B as (x & B1 & B2). apply dns_bytes_eqb_eq in B2. subst. assumption.
+  - exists src. split; [assumption|apply dns_bytes_eqb_eq; reflexivity].
+Qed.
+
+(* header clauses of `process`: long enough, opcode Query, response bit, one question, the id *)
+Definition dns_header_ok (pkt : list Z) (txid : Z) : Prop :=
+  wdns_f_HEADER_END <= wdns_len pkt /\
+  wdns_opcode pkt = Ok wdns_OPCODE_QUERY /\
+  (exists fl, wdns_flags pkt = Ok fl /\ Z.land fl wdns_FLAG_RESPONSE <> 0) /\
+  wdns_question_count pkt = Ok 1 /\
+  wdns_transaction_id pkt = Ok txid.
+
+(* the question section repeats the query's name and type *)
+Definition dns_question_matches (pkt : list Z) (pq : dns_pending) : Prop :=
+  exists payload payload1 question head,
+    wdns_payload pkt = Ok payload /\ wdns_question_parse payload = Ok (payload1, question) /\
+    q_type question = pq_type pq /\
+    dns_name_labels pkt (q_name question) = Some head /\ dns_name_labels pkt (pq_name pq) = Some head.
+
+Lemma dns_answer_matches_question : forall cfg pkt pq addrs,
+  dns_answer_matches cfg pkt pq addrs -> dns_question_matches pkt pq.
+Proof.
+  intros cfg pkt pq addrs (payload & payload1 & question & head & an & rs & oc & A & B & C & D & E & _).
+  exists payload, payload1, question, head. auto.
+Qed.
+
+(* every clause of the property, for one datagram and one pending query *)
+Definition dns_response_matches (cfg : dns_cfg) (s : dns_sock) (pq : dns_pending)
+           (src : list Z) (sp dp : Z) (pkt : list Z) (addrs : list (list Z)) : Prop :=
+  dns_source_ok s src sp /\ dp = pq_port pq /\ dns_header_ok pkt (pq_txid pq) /\
+  dns_answer_matches cfg pkt pq addrs.
+
+Lemma dns_process_query_wrong_question : forall cfg pkt pq st,
+  ~ dns_question_matches pkt pq -> dns_process_query cfg pkt pq = Ok st -> st = QPending pq.
+Proof.
+  intros cfg pkt pq st NM H. unfold dns_process_query in H.
+  destruct (wdns_payload pkt) as [payload| |] eqn:Epl; cbn [obind] in H; try discriminate.
+  destruct (wdns_question_parse payload) as [[payload1 question]|e|] eqn:Q; try discriminate.
+  2:{ destruct (dns_is_fuel e); inv H; reflexivity. }
+  destruct (negb (q_type question =? pq_type pq)) eqn:Ety; [inv H; reflexivity|].
+  destruct (dns_eq_names (wdns_parse_name pkt (q_name question)) (wdns_parse_name pkt (pq_name pq))) as [[|]|e|] eqn:EQ;
+    try discriminate; try (inv H; reflexivity).
+  exfalso. apply NM. apply dns_eq_names_true_iff in EQ. destruct EQ as (head & A & B).
+  exists payload, payload1, question, head. repeat split; auto.
+  apply negb_false_iff in Ety. apply Z.eqb_eq in Ety. exact Ety.
+Qed.
+
+(* effect of the `for q` loop on each slot *)
+Lemma dns_process_slots_nth : forall cfg pkt dp txid rcode qs qs',
+  dns_process_slots cfg pkt dp txid rcode qs = Ok qs' ->
+  forall h,
+  match nth_error qs h with
+  | None => nth_error qs' h = None
+  | Some (Some (QPending pq)) =>
+      nth_error qs' h = Some (Some (QPending pq)) \/
+      (dp = pq_port pq /\ txid = pq_txid pq /\
+       ((rcode = wdns_RCODE_NXDOMAIN /\ nth_error qs' h = Some (Some QFailure)) \/
+        (rcode <> wdns_RCODE_NXDOMAIN /\
+         exists st, dns_process_query cfg pkt pq = Ok st /\ nth_error qs' h = Some (Some st))))
+  | Some o => nth_error qs' h = Some o
+  end.
+Proof.
+  induction qs as [|q rest IH]; intros qs' H h; cbn [dns_process_slots] in H.
+  { inv H. destruct h; reflexivity. }
+  destruct q as [[pq|addrs|]|].
+  - destruct (negb (dp =? pq_port pq) || negb (txid =? pq_txid pq)) eqn:Em.
+    + destruct (dns_process_slots cfg pkt dp txid rcode rest) as [rest'| |] eqn:Er; cbn [obind] in H; inv H.
+      destruct h as [|h']; cbn [nth_error]; [left; reflexivity|]. exact (IH rest' eq_refl h').
+    + apply orb_false_iff in Em. destruct Em as [E1 E2].
+      apply negb_false_iff in E1. apply negb_false_iff in E2. apply Z.eqb_eq in E1. apply Z.eqb_eq in E2.
+      destruct (rcode =? wdns_RCODE_NXDOMAIN) eqn:Erc.
+      * apply Z.eqb_eq in Erc.
+        destruct (dns_process_slots cfg pkt dp txid rcode rest) as [rest'| |] eqn:Er; cbn [obind] in H; inv H.
+        destruct h as [|h']; cbn [nth_error]; [right; repeat split; auto|]. exact (IH rest' eq_refl h').
+      * apply Z.eqb_neq in Erc.
+        destruct (dns_process_query cfg pkt pq) as [st| |] eqn:Eq; cbn [obind] in H; inv H.
+        destruct h as [|h']; cbn [nth_error].
+        -- right. repeat split; auto. right. split; auto. exists st. auto.
+        -- (* `return`: the remaining slots are not visited *)
+           destruct (nth_error rest h') as [[[pq'|a|]|]|]; auto.
+  - destruct (dns_process_slots cfg pkt dp txid rcode rest) as [rest'| |] eqn:Er; cbn [obind] in H; inv H.
+    destruct h as [|h']; cbn [nth_error]; [reflexivity|]. exact (IH rest' eq_refl h').
+  - destruct (dns_process_slots cfg pkt dp txid rcode rest) as [rest'| |] eqn:Er; cbn [obind] in H; inv H.
+    destruct h as [|h']; cbn [nth_error]; [reflexivity|]. exact (IH rest' eq_refl h').
+  - destruct (dns_process_slots cfg pkt dp txid rcode rest) as [rest'| |] eqn:Er; cbn [obind] in H; inv H.
+    destruct h as [|h']; cbn [nth_error]; [reflexivity|]. exact (IH rest' eq_refl h').
+Qed.
+
+(* `process`: either the header is rejected and nothing changes, or the loop ran with the
+   header's id and rcode *)
+Lemma dns_process_cases : forall cfg s dp pkt s',
+  dns_process cfg s dp pkt = Ok s' ->
+  s' = s \/
+  exists txid rcode qs',
+    dns_header_ok pkt txid /\ wdns_rcode pkt = Ok rcode /\
+    dns_process_slots cfg pkt dp txid rcode (ds_queries s) = Ok qs' /\
+    s' = mkSock (ds_servers s) qs' (ds_owned s).
+Proof.
+  intros cfg s dp pkt s' H. unfold dns_process in H.
+  destruct (wdns_check_len pkt) as [[]|e|] eqn:CL; try discriminate.
+  2:{ inv H. left; reflexivity. }
+  pose proof (wdns_check_len_ok _ CL) as Hlen.
+  destruct (wdns_opcode pkt) as [op| |] eqn:Eop; cbn [obind] in H; try discriminate.
+  destruct (negb (op =? wdns_OPCODE_QUERY)) eqn:E1; [inv H; left; reflexivity|].
+  destruct (wdns_flags pkt) as [fl| |] eqn:Efl; cbn [obind] in H; try discriminate.
+  destruct (Z.land fl wdns_FLAG_RESPONSE =? 0) eqn:E2; [inv H; left; reflexivity|].
+  destruct (wdns_question_count pkt) as [qd| |] eqn:Eqd; cbn [obind] in H; try discriminate.
+  destruct (negb (qd =? 1)) eqn:E3; [inv H; left; reflexivity|].
+  destruct (wdns_transaction_id pkt) as [id| |] eqn:Eid; cbn [obind] in H; try discriminate.
+  destruct (wdns_rcode pkt) as [rc| |] eqn:Erc; cbn [obind] in H; try discriminate.
+  destruct (dns_process_slots cfg pkt dp id rc (ds_queries s)) as [qs'| |] eqn:Es; cbn [obind] in H; try discriminate.
+  inv H. right. exists id, rc, qs'.
+  apply negb_false_iff in E1. apply Z.eqb_eq in E1. apply Z.eqb_neq in E2.
+  apply negb_false_iff in E3. apply Z.eqb_eq in E3. subst.
+  repeat split; eauto.
+Qed.
+
+(* the datagram is addressed to this pending query: acceptable source, its port, a well-formed
+   response header with its transaction id *)
+Definition dns_addressed (s : dns_sock) (pq : dns_pending) (src : list Z) (sp dp : Z) (pkt : list Z) : Prop :=
+  dns_source_ok s src sp /\ dp = pq_port pq /\ dns_header_ok pkt (pq_txid pq).
+
+Lemma dns_header_ok_txid : forall pkt t1 t2, dns_header_ok pkt t1 -> dns_header_ok pkt t2 -> t1 = t2.
+Proof. intros pkt t1 t2 (_ & _ & _ & _ & A) (_ & _ & _ & _ & B). congruence. Qed.
+
+(* what one datagram can do to one pending slot *)
+Lemma dns_ingress_slot : forall cfg s src sp dp pkt s' acc h pq,
+  dns_ingress cfg s src sp dp pkt = Ok (s', acc) ->
+  nth_error (ds_queries s) h = Some (Some (QPending pq)) ->
+  nth_error (ds_queries s') h = Some (Some (QPending pq)) \/
+  (dns_addressed s pq src sp dp pkt /\
+   ((wdns_rcode pkt = Ok wdns_RCODE_NXDOMAIN /\ nth_error (ds_queries s') h = Some (Some QFailure)) \/
+    (wdns_rcode pkt <> Ok wdns_RCODE_NXDOMAIN /\
+     exists st, dns_process_query cfg pkt pq = Ok st /\ nth_error (ds_queries s') h = Some (Some st)))).
+Proof.
+  intros cfg s src sp dp pkt s' acc h pq H Hh. unfold dns_ingress in H.
+  destruct (dns_accepts s src sp) eqn:Ea; [|inv H; left; assumption].
+  apply dns_accepts_iff in Ea.
+  destruct (dns_process cfg s dp pkt) as [s1| |] eqn:Ep; cbn [obind] in H; inv H.
+  destruct (dns_process_cases _ _ _ _ _ Ep) as [->|(txid & rc & qs' & Hh1 & Hrc & Hs & ->)]; [left; assumption|].
+  pose proof (dns_process_slots_nth _ _ _ _ _ _ _ Hs h) as N. rewrite Hh in N. cbn [ds_queries].
+  destruct N as [N|(P1 & P2 & N)]; [left; assumption|]. right. subst txid. split; [split; [|split]; assumption|].
+  destruct N as [[N1 N2]|[N1 N2]]; [left|right]; split; auto; congruence.
+Qed.
+
+(* slots that are not pending, and free slots, are never touched by a datagram *)
+Lemma dns_ingress_other : forall cfg s src sp dp pkt s' acc h,
+  dns_ingress cfg s src sp dp pkt = Ok (s', acc) ->
+  (forall pq, nth_error (ds_queries s) h <> Some (Some (QPending pq))) ->
+  nth_error (ds_queries s') h = nth_error (ds_queries s) h.
+Proof.
+  intros cfg s src sp dp pkt s' acc h H Hh. unfold dns_ingress in H.
+  destruct (dns_accepts s src sp) eqn:Ea; [|inv H; reflexivity].
+  destruct (dns_process cfg s dp pkt) as [s1| |] eqn:Ep; cbn [obind] in H; inv H.
+  destruct (dns_process_cases _ _ _ _ _ Ep) as [->|(txid & rc & qs' & Hh1 & Hrc & Hs & ->)]; [reflexivity|].
+  pose proof (dns_process_slots_nth _ _ _ _ _ _ _ Hs h) as N. cbn [ds_queries].
+  destruct (nth_error (ds_queries s) h) as [[[pq|a|]|]|]; auto. exfalso. eapply Hh; reflexivity.
+Qed.
+
+(* nonmatching_ignored: a datagram that is not addressed to the query -- wrong source address or
+   port, wrong destination port, malformed header / not a response / other opcode / question
+   count <> 1, wrong transaction id -- leaves its slot unchanged *)
+Lemma dns_not_addressed_unchanged : forall cfg s src sp dp pkt s' acc h pq,
+  dns_ingress cfg s src sp dp pkt = Ok (s', acc) ->
+  nth_error (ds_queries s) h = Some (Some (QPending pq)) ->
+  ~ dns_addressed s pq src sp dp pkt ->
+  nth_error (ds_queries s') h = Some (Some (QPending pq)).
+Proof.
+  intros. destruct (dns_ingress_slot _ _ _ _ _ _ _ _ _ _ H H0) as [A|[A _]]; [assumption|contradiction].
+Qed.
+
+(* ... and one that is addressed to it but does not repeat its question leaves it unchanged too,
+   except that rcode NXDomain fails the query (before the question is looked at) *)
+Lemma dns_wrong_question_unchanged : forall cfg s src sp dp pkt s' acc h pq,
+  dns_ingress cfg s src sp dp pkt = Ok (s', acc) ->
+  nth_error (ds_queries s) h = Some (Some (QPending pq)) ->
+  ~ dns_question_matches pkt pq ->
+  nth_error (ds_queries s') h = Some (Some (QPending pq)) \/
+  (dns_addressed s pq src sp dp pkt /\ wdns_rcode pkt = Ok wdns_RCODE_NXDOMAIN /\
+   nth_error (ds_queries s') h = Some (Some QFailure)).
+Proof.
+  intros cfg s src sp dp pkt s' acc h pq H Hh NM.
+  destruct (dns_ingress_slot _ _ _ _ _ _ _ _ _ _ H Hh) as [A|[A [[B C]|[B (st & C & D)]]]]; auto.
+  left. rewrite (dns_process_query_wrong_question _ _ _ _ NM C) in D. exact D.
+Qed.
+
+(* a datagram that is refused by `accepts` or by the header checks changes nothing at all *)
+Lemma dns_ingress_rejected_unchanged : forall cfg s src sp dp pkt s' acc,
+  dns_ingress cfg s src sp dp pkt = Ok (s', acc) ->
+  ~ dns_source_ok s src sp \/ (forall txid, ~ dns_header_ok pkt txid) ->
+  s' = s.
+Proof.
+  intros cfg s src sp dp pkt s' acc H C. unfold dns_ingress in H.
+  destruct (dns_accepts s src sp) eqn:Ea; [|inv H; reflexivity].
+  apply dns_accepts_iff in Ea.
+  destruct (dns_process cfg s dp pkt) as [s1| |] eqn:Ep; cbn [obind] in H; inv H.
+  destruct (dns_process_cases _ _ _ _ _ Ep) as [->|(txid & rc & qs' & Hh1 & _)]; [reflexivity|].
+  destruct C as [C|C]; [contradiction|]. exfalso. exact (C txid Hh1).
+Qed.
